@@ -124,7 +124,7 @@ class ChunkSchedule:
         k = self.kind
         r = self._rng
         if k == "whole":
-            return 1 << 20
+            return 1 << 62      # no limit: a blocking descriptor takes or gives everything asked
         if k == "one":
             return 1
         if k == "tiny":
